@@ -418,6 +418,124 @@ func c16Scenarios() []pxScenario {
 	return out
 }
 
+// scenarios on which the reduction of the model exploration (Check/C16c.v: rules taken alone, deliveries performed
+// first) is re-checked against the full exploration, outcome set against outcome set: small enough for the full
+// exploration (<= 4 records), chosen to exercise every reduced rule: buffer full / nearly full with the writer
+// released, dial answered with queued envelopes, every third-peer role and re-attachment with the context
+// cancelled at every step, transports that ignore their context, concurrent senders, short walks with faults
+func redSmallBases() []pxScenario {
+	var out []pxScenario
+	mk := func(f func(b *pxBuilder)) {
+		b := &pxBuilder{tok: 700}
+		b.add(att(1)...)
+		b.add(att(2)...)
+		f(b)
+		out = append(out, pxScenario{Icp: 0, ByRef: len(out)%2 == 0, Steps: b.steps, Tags: []string{"small"}})
+	}
+	mk(func(b *pxBuilder) { // blocked writer, released
+		b.add(b.send(1, 2))
+		b.add(PAct{Op: "setw", N: 2, M: "block"})
+		b.add(b.send(1, 2))
+		b.add(b.send(1, 2))
+		b.add(b.send(2, 1))
+		b.add(PAct{Op: "setw", N: 2, M: "ok"})
+		b.add(b.send(2, 1), b.send(1, 2))
+	})
+	mk(func(b *pxBuilder) { // dial pending with queued envelopes, answered
+		b.add(b.send(1, 6))
+		b.add(b.send(2, 6))
+		b.add(b.send(6, 1))
+		b.add(PAct{Op: "dial", N: 6, M: "ok"})
+		b.add(b.send(1, 6))
+		b.add(b.send(6, 2))
+	})
+	mk(func(b *pxBuilder) { // reader fails, name dialled again, dial fails, dialled again
+		b.add(PAct{Op: "failread", N: 2})
+		b.add(b.send(1, 2))
+		b.add(PAct{Op: "dial", N: 2, M: "fail"})
+		b.add(b.send(1, 2))
+		b.add(PAct{Op: "dial", N: 2, M: "ok"})
+		b.add(b.send(1, 2))
+	})
+	mk(func(b *pxBuilder) { // failing writer, forged and header-less envelopes
+		b.add(PAct{Op: "setw", N: 2, M: "fail"})
+		a := b.send(1, 2)
+		a.Bad, a.Src = "spoof", 2
+		b.add(a)
+		b.add(b.send(1, 2))
+		a = b.send(1, 2)
+		a.Bad = "nohdr"
+		b.add(a)
+		b.add(b.send(2, 1))
+	})
+	mk(func(b *pxBuilder) { // blocked write that then fails; transports ignoring their context come from c17Deaf
+		b.add(PAct{Op: "setw", N: 2, M: "block"})
+		b.add(b.send(1, 2))
+		b.add(PAct{Op: "setw", N: 2, M: "fail"})
+		b.add(b.send(1, 2))
+	})
+	return out
+}
+
+func redScenarios() []pxScenario {
+	var out []pxScenario
+	pick := func(i, quickEvery int) bool { return thorough() || i%quickEvery == 0 }
+	k := 0
+	add := func(sc pxScenario, quickEvery int) {
+		k++
+		if pick(k, quickEvery) {
+			sc.Tags = append([]string{"reduction-recheck"}, sc.Tags...)
+			out = append(out, sc)
+		}
+	}
+	for _, sc := range pxWordScenarios(2, []int64{1, 2}, []int64{1, 2, 4, 5, 6}, 0, false, nil) {
+		add(sc, 25)
+	}
+	for _, n := range []int{16, 17, 18} {
+		for _, mode := range []string{"blocked", "slowdial"} {
+			add(pxBurst(n, mode, 1, 0), 3)
+			add(pxBurst(n, mode, 2, 0), 6)
+		}
+	}
+	for _, how := range []string{"read", "write", "write-blocked", "dialerror"} {
+		add(pxDialThenFail(how, 1), 4)
+	}
+	// every third-peer role and re-attachment, as they are (no cancellation: 4-5 records are too many for the full
+	// exploration of a cancellation step)
+	for _, role := range c17Roles {
+		add(c17Role(role, "all", false, 3), 4)
+		add(c17Role(role, "honest", true, 3), 4)
+	}
+	for _, when := range []string{"before", "after"} {
+		for _, how := range []string{"read", "write-blocked"} {
+			add(c17Reattach(when, how, false), 3)
+		}
+	}
+	// cancellation at every step of small scenarios (2-3 records): blocked writer with a full-ish buffer, pending
+	// and answered dial with queued envelopes, failed reader + re-dial, failing writer
+	for bi, sc := range redSmallBases() {
+		for pos := 1; pos <= len(sc.Steps); pos++ {
+			add(c17CancelAt(sc, pos), 7+bi%3)
+		}
+	}
+	for v := 0; v < 12; v++ {
+		add(c17Deaf(v), 6)
+	}
+	plan := [][]int64{{3, 3}, {3, 1}, {1, 2}}
+	for _, sc := range pxInterleavings(plan, []int64{1, 2, 3}, 0, true, func(i int) bool { return i%9 == 0 }) {
+		add(sc, 5)
+	}
+	r := newRand(1690)
+	nw := 40
+	if thorough() {
+		nw = 300
+	}
+	for i := 0; i < nw; i++ {
+		add(pxRandomWalk(r, 5+r.Intn(6), i%4 == 0), 10)
+	}
+	return out
+}
+
 func TestC16(t *testing.T) {
 	var jobs []func(idx int, em *Emitter)
 	for _, sc := range c16Scenarios() {
@@ -433,6 +551,11 @@ func TestC16(t *testing.T) {
 	for i := 0; i < proxyFreeCount(); i++ {
 		i := i
 		jobs = append(jobs, func(idx int, em *Emitter) { runProxyFree(t, idx, i, em) })
+	}
+	// re-check of the exploration reduction against the full exploration (a sample in the quick tier)
+	for _, sc := range redScenarios() {
+		sc := sc
+		jobs = append(jobs, func(idx int, em *Emitter) { runPxScenario(t, idx, "proxy-red", sc, em) })
 	}
 	pxRunJobs(t, "TestC16", jobs)
 }
